@@ -95,6 +95,7 @@ class Engine:
         self.notes = set()
         self.visited = set()        # compiler methods whose bodies were interpreted
         self.sites = {}
+        self.pred_stack = []
         self.site_count = {}
         self.top = ""
 
@@ -246,9 +247,11 @@ class Engine:
     def ev_path(self, n, st):
         r = n["res"]
         if r["r"] == "local":
+            if r["id"] in st.env:
+                return [("n", st, st.env[r["id"]])]
             if r["name"] == "self":
                 return [("n", st, ("self",))]
-            return [("n", st, st.env.get(r["id"], UNK))]
+            return [("n", st, UNK)]
         if r["r"] in ("ctor", "variant") and r.get("path"):
             return [("n", st, ("variant", r["path"]))]
         return [("n", st, UNK)]
@@ -397,6 +400,10 @@ class Engine:
                     for s2, c in self.fork(s, "v:" + a[1], self.variants(ty)):
                         out.append(("n", s2, ("bool", (c == H.last(b[1])) == (op == "=="))))
                     continue
+            elif op in ("==", "!=") and a and b and a[0] == "ast" and b[0] == "str":
+                for s2, c in self.fork(s, "streq:%s:%s" % (a[1], b[1]), [True, False]):
+                    out.append(("n", s2, ("bool", c == (op == "=="))))
+                continue
             elif op in ("==", "!=") and a and b and a[0] == "enumval" and b[0] == "variant":
                 for s2, c in self.fork(s, "v:" + a[1], a[2]):
                     out.append(("n", s2, ("bool", (c == H.last(b[1])) == (op == "=="))))
@@ -461,6 +468,29 @@ class Engine:
             return [(s, True)]
         if pk in ("ref", "deref"):
             return self.match_pat(pat["pat"], val, st, scrut_node)
+        if pk == "or" and any(a.get("k") in ("tuple", "or") for a in pat["pats"]):
+            out, remaining = [], [st]
+            for alt in pat["pats"]:
+                nxt = []
+                for r in remaining:
+                    for s2, m in self.match_pat(alt, val, r, scrut_node):
+                        (out if m else nxt).append((s2, m) if m else s2)
+                remaining = nxt
+            return out + [(r, False) for r in remaining]
+        if pk == "tuple" and val and val[0] == "tuple" and len(val[1]) == len(pat["pats"]):
+            sn = H.strip(scrut_node) if isinstance(scrut_node, dict) else {}
+            comps = sn.get("es") if sn.get("k") == "tup" else None
+            results = [(st, True)]
+            for i, (p_i, v_i) in enumerate(zip(pat["pats"], val[1])):
+                nxt = []
+                for s2, m in results:
+                    if not m:
+                        nxt.append((s2, False))
+                        continue
+                    node_i = comps[i] if comps else {"ty": ""}
+                    nxt.extend(self.match_pat(p_i, v_i, s2, node_i))
+                results = nxt
+            return results
         pv = [H.last(x) for x in H.pat_variants(pat)]
         # Option
         if val and val[0] == "opt":
@@ -521,7 +551,26 @@ class Engine:
         # unknown: both
         a, b = st.copy(), st.copy()
         self.bind(pat, UNK, a)
+        lits = self.str_lits(pat)
+        if lits and val and val[0] == "ast":
+            k = "strpat:" + val[1]
+            a.facts[k] = a.facts.get(k, ()) + (lits,)
+            k = "strnot:" + val[1]
+            b.facts[k] = b.facts.get(k, ()) + lits
         return [(a, True), (b, False)]
+
+    def str_lits(self, pat):
+        if pat.get("k") == "plit" and pat["lit"].get("lk") == "str":
+            return (pat["lit"]["v"],)
+        if pat.get("k") == "or":
+            out = ()
+            for p in pat["pats"]:
+                l = self.str_lits(p)
+                if not l:
+                    return ()
+                out += l
+            return out
+        return ()
 
     def fresh_key(self, name, st):
         return name
@@ -758,7 +807,7 @@ class Engine:
                 elif nm == "Some":
                     out.append(("n", s, ("optval", True, a[0] if a else UNK)))
                 else:
-                    out.append(("n", s, UNK))
+                    out.append(("n", s, ("ctor", H.render(n))))
             return out
         if cal.startswith(C):
             return self.compiler_call(H.last(cal), n, None, n.get("args", []), st)
@@ -768,7 +817,10 @@ class Engine:
                 if ctl != "n":
                     out.append((ctl, s, vs))
                 else:
-                    out.append(("n", s, ("loopctx", vs[1][1] if len(vs[1]) > 1 else None)))
+                    lb = vs[1][1] if len(vs[1]) > 1 else None
+                    s = s.copy()
+                    s.events = s.events + (("loop-begin", lb[2] if lb and lb[0] == "label" and len(lb) > 2 else None),)
+                    out.append(("n", s, ("loopctx", lb)))
             return out
         if cal.endswith("Vec::<T>::new") or cal.endswith("Vec::<T, A>::new") or H.last(cal) in ("new",) and "Vec" in cal:
             return [("n", st, ("phvec", frozenset()))]
@@ -820,6 +872,15 @@ class Engine:
                 ty = self.is_enum_ty(n.get("recv_ty") or n["recv"].get("ty"))
                 if vs is not None and ty:
                     return [("n", s, ("bool", c in vs)) for s, c in self.fork(st, "v:" + key, self.variants(ty))]
+                if H.body_of(f) is not None and n.get("ty") == "bool" and cal not in self.pred_stack:
+                    # a pure predicate over the AST: evaluate its body
+                    self.pred_stack.append(cal)
+                    try:
+                        return self.inline(H.last(cal), f, args, st, recv=rv)
+                    except Unsupported:
+                        return [("n", st, UNK)]
+                    finally:
+                        self.pred_stack.pop()
                 return [("n", st, UNK)]
             return [("n", st, UNK)]
         if r0 == "opt":
@@ -868,7 +929,7 @@ class Engine:
                 return [("n", s, UNIT)]
             return [("n", st, UNIT)]
         if r0 == "instrs" and m == "len":
-            return [("n", st, ("label", st.h))]
+            return [("n", st, ("label", st.h, len(st.emits) + len(st.order)))]
         if r0 == "lin" and m == "len":
             return [("n", st, rv)]
         if m == "len":
@@ -984,7 +1045,8 @@ class Engine:
                 s.facts["ls_top"] = lst
             return [("n", s, UNK)]
         if name == "add_constant":
-            return [("n", st, UNK)]
+            a0 = args[0] if args else None
+            return [("n", st, ("const", a0[1] if a0 and a0[0] == "ctor" else (H.render(argnodes[0]) if argnodes else "?")))]
         if name in SUMMARY_FNS or (name in self.inline_stack):
             return self.summary(name, n, args, argnodes, st)
         # inline every other method of the compiler
@@ -993,13 +1055,14 @@ class Engine:
             raise Unsupported("compiler method %s has no body" % name)
         return self.inline(name, f, args, st)
 
-    def inline(self, name, f, args, st):
+    def inline(self, name, f, args, st, recv=None):
         s = st.copy()
-        self.visited.add(name)
+        if recv is None:
+            self.visited.add(name)
         params = f["hir"]["params"]
         pvals = list(args)
         if params and params[0].get("name") == "self":
-            pvals = [("self",)] + pvals
+            pvals = [recv if recv is not None else ("self",)] + pvals
         saved = {}
         for p, v in zip(params, pvals):
             if p.get("k") == "bind":
@@ -1053,7 +1116,7 @@ class Engine:
             if s.h.is_const() and s.h.c < 0 and not s.stack and False:
                 pass
         s.prev, s.last, s.landed = s.last, cls_of(op), False
-        s.emits = s.emits + ((op, tuple(repr(o[1]) if o and o[0] == "lin" else (o[0] if o else "?") for o in ops)),)
+        s.emits = s.emits + ((op, tuple(repr(o[1]) if o and o[0] == "lin" else ("const:" + o[1] if o and o[0] == "const" else (o[0] if o else "?")) for o in ops)),)
         if op in JUMPS:
             o = ops[0] if ops else None
             if o and o[0] == "lin" and o[1] == Lin(PLACEHOLDER):
@@ -1064,6 +1127,7 @@ class Engine:
                 s.ph[pid] = s.h
                 val = ("ph", pid)
             elif o and o[0] == "label":
+                s.events = s.events + (("backjump", o[2] if len(o) > 2 else None),)
                 if s.h is not None and o[1] is not None and not (s.h == o[1]):
                     self.v("back-jump-height", "%s back to a position recorded at height %s is emitted at height %s" % (op, o[1], s.h), "", line)
             elif o and o[0] == "loopbegin":
